@@ -74,13 +74,27 @@ def _opt(b):
     return b"\x00" if b is None else b"\x01" + bytes(b)
 
 
+def _raw_b58(net):
+    """the UNCACHED checksum decoder behind net.parse.parse_b58_hashed (the cache is part of the model)"""
+    if type(net.parse).__name__ == "GRSParseAPI":
+        from pycoin.coins.groestlcoin import parse as _gp
+        return _gp.b58_groestl
+    return _ps.b58_double_sha256
+
+
 def _o_b58(data):
     net = NETS[data[0]][1]
-    return _opt(quiet(net.parse.parse_b58_hashed, un32(data[1:])))
+    try:
+        return _opt(quiet(_raw_b58(net), _ps.parseable_str(un32(data[1:]))))
+    except Exception:
+        return b"\x02"
 
 
 def _o_bech32(data):
-    r = _ps.parse_bech32(un32(data[1:]))
+    try:
+        r = _ps.parse_bech32_or_32m(_ps.parseable_str(un32(data[1:])))
+    except Exception:
+        return b"\x02"
     if r is None:
         return b"\x00"
     hrp, version, decoded, spec = r
@@ -423,6 +437,55 @@ def segwit_texts(rng, net):
     return out
 
 
+# Bech32 / Bech32m strings built here (BIP173/BIP350 checksum), NOT with the code under test: the degenerate ones
+# (empty data part, only a version symbol, too-short programs) are exactly what an encoder refuses to produce
+_B32 = "qpzry9x8gf2tvdw0s3jn54khce6mua7l"
+_B32GEN = [0x3B6A57B2, 0x26508E6D, 0x1EA119FA, 0x3D4233DD, 0x2A1462B3]
+
+
+def _polymod(values):
+    c = 1
+    for v in values:
+        b = c >> 25
+        c = ((c & 0x1FFFFFF) << 5) ^ v
+        for i in range(5):
+            if (b >> i) & 1:
+                c ^= _B32GEN[i]
+    return c
+
+
+def own_bech32(hrp, data, m):
+    """hrp + '1' + data symbols + 6 checksum symbols; m = Bech32m"""
+    exp = [ord(x) >> 5 for x in hrp] + [0] + [ord(x) & 31 for x in hrp]
+    pm = _polymod(exp + list(data) + [0] * 6) ^ (0x2BC830A3 if m else 1)
+    return hrp + "1" + "".join(_B32[d] for d in list(data) + [(pm >> (5 * (5 - i))) & 31 for i in range(6)])
+
+
+def degenerate_segwit_texts(rng, net, lean=False):
+    """validly checksummed strings whose data part has 0, 1, 2.. symbols, for the network's hrp and two others"""
+    hrp = net.parse._bech32_hrp
+    hrps = ([hrp] if hrp else []) + ["bc", "tb", "x"]
+    out = []
+    if lean:
+        h = hrps[0]
+        for m in (False, True):
+            for data in ([], [0], [1], [17], [0, rng.randrange(32)], [1] + [rng.randrange(32) for _ in range(3)]):
+                out.append(own_bech32(h, data, m))
+        return out
+    for h in list(dict.fromkeys(hrps))[:3]:
+        for m in (False, True):
+            out.append(own_bech32(h, [], m))                                   # empty data part
+            for v in (0, 1, 2, 16, 17, 31):
+                out.append(own_bech32(h, [v], m))                              # only a version symbol
+            for v in (0, 1):
+                for k in (1, 2, 3, 4, 7, 8, 31, 33, 51, 52, 53):               # programs of 0..33 bytes, odd paddings
+                    out.append(own_bech32(h, [v] + [rng.randrange(32) for _ in range(k)], m))
+                out.append(own_bech32(h, [v] + [0] * 32, m))
+                out.append(own_bech32(h, [v] + [31] * 52, m))
+            out.append(own_bech32(h, [], m).upper())
+    return out
+
+
 def colon_texts(rng):
     hx = lambda n: bytes(rng.getrandbits(8) for _ in range(n)).hex()
     out = ["H:", "P:", "E:", ":", "::", "H::", "HP:abc", "PH:abc", ":abc", "X:00", "h:00", "p:abc", "e:" + hx(32),
@@ -524,7 +587,7 @@ def generic_texts(rng, net, tier):
     return ([("colon", t) for t in colon_texts(rng)] + [("numeric", t) for t in numeric_texts(rng)]
             + [("pair", t) for t in pair_texts(rng)] + [("sec", t) for t in sec_texts(rng, net)]
             + [("script", t) for t in script_texts(rng)] + [("unicode", t) for t in unicode_texts(rng, k)]
-            + [("segwit", t) for t in segwit_texts(rng, net)])
+            + [("segwit", t) for t in segwit_texts(rng, net)] + [("segwit", t) for t in degenerate_segwit_texts(rng, net)])
 
 
 def entries_for_generic(rng, fam, all_entries, extra):
@@ -535,6 +598,7 @@ def entries_for_generic(rng, fam, all_entries, extra):
 
 # ---------------------------------------------------------------------------------------------------------------
 # correspondence cases
+SEGWIT_PATH = ["p2pkh_segwit", "p2sh_segwit", "p2tr", "address", "payable", "__call__"]
 KIND_SUBSET = ["p2pkh", "p2sh", "wif", "bip32_prv", "bip32_pub", "bip32", "address", "private_key", "hierarchical_key", "__call__"]
 
 
@@ -611,6 +675,14 @@ def model_cases(rng, tier):
                 for e in {"pair": ("public_pair", "public_key"), "sec": ("sec", "public_key"),
                           "colon": ("electrum_prv", "electrum_pub", "hierarchical_key")}[fam]:
                     yield mk_astext_case(ni, e, s)
+    # C'. per network hrp: checksummed Bech32/Bech32m strings with 0, 1, 2.. data symbols (the decoder RAISES on the
+    #     empty data part; parseable_str.cache has to swallow it)
+    for nm, net in NETS:
+        ni = NET_INDEX[nm]
+        wide = tier == "thorough" or nm in ("btc", "xtn", "ltc")
+        for s in degenerate_segwit_texts(rng, net, lean=not wide):
+            for e in (SEGWIT_PATH if wide else rng.sample(SEGWIT_PATH, 3)):
+                yield mk_case(ni, e, s)
     # D. electrum seeds (100000 SHA-256 rounds each: rationed)
     for s in electrum_seed_texts(rng, 3 if tier == "quick" else 25):
         for e in ("electrum_seed", "hierarchical_key", "secret", "__call__"):
@@ -694,6 +766,21 @@ def chk_total(net, entry, s):
     return None
 
 
+def chk_shared_twice(net, entry, s):
+    """one parseable_str object handed to the entry point twice (the decode cache is filled by the first call):
+    neither call raises and both give the same answer"""
+    ps = _ps.parseable_str(s)
+    res = []
+    for i in (0, 1):
+        try:
+            res.append(canon_obj(parse_call(net, entry, ps)))
+        except Exception as e:
+            return {"kind": "raises", "exc": type(e).__name__, "call": i + 1}
+    if res[0] != res[1]:
+        return {"kind": "second-call-differs", "first": res[0][:100], "second": res[1][:100]}
+    return None
+
+
 def _in_range(o):
     x, y = o._public_pair
     return 0 <= x < P_ and 0 <= y < P_
@@ -725,6 +812,9 @@ def chk_reserialize(net, entry, s):
         return dict(info, kind="serialise-raises", exc=type(e).__name__)
     if t is None:
         return dict(info, kind="no-text-form")
+    if k == "C":
+        # a disassembly naming an unknown opcode ("???") or a bare push opcode (a truncated push) is not faithful
+        info["script_text_lossy"] = bool(_re.search(r"\?\?\?|OP_PUSH(DATA)?[_0-9]", t))
     nat = NATURAL_PARSER.get(k) or ("private_key" if info["private"] else "public_key")
     if is_disabled(net):
         # hierarchical_key / private_key / public_key / address are switched off on this network object
@@ -853,6 +943,8 @@ def _pc(name, nm, **kw):
     inp = dict(kw, net=nm)
     if name == "total":
         return PropCase(name, inp, lambda: chk_total(net, kw["entry"], un32(bytes.fromhex(kw["text"]))))
+    if name == "shared_twice":
+        return PropCase(name, inp, lambda: chk_shared_twice(net, kw["entry"], un32(bytes.fromhex(kw["text"]))))
     if name == "reserialize":
         return PropCase(name, inp, lambda: chk_reserialize(net, kw["entry"], un32(bytes.fromhex(kw["text"]))))
     if name == "refuse":
@@ -931,6 +1023,17 @@ def prop_cases(rng, tier):
     for s in electrum_seed_texts(rng, 2 if not thorough else 20):
         for e in ("electrum_seed", "hierarchical_key"):
             yield from text_checks("btc", e, s)
+    # per network hrp: checksummed Bech32/Bech32m strings with 0, 1, 2.. data symbols; also through one shared parseable_str
+    for nm, net in NETS:
+        wide = thorough or nm in ("btc", "xtn", "ltc")
+        for s in degenerate_segwit_texts(rng, net, lean=not wide):
+            h = u32(s).hex()
+            for e in (SEGWIT_PATH if wide else SEGWIT_PATH[:3] + [rng.choice(SEGWIT_PATH[3:])]):
+                yield _pc("total", nm, entry=e, text=h)
+                yield _pc("shared_twice", nm, entry=e, text=h)
+        for s in valid_texts(rng, net, lean=True)[:4] + ["", "1", "\ud800"]:
+            for e in ("address", "__call__"):
+                yield _pc("shared_twice", nm, entry=e, text=u32(s).hex())
     for nm in ("btc", "xtn", "polis", "ltc"):
         for name, kw in REGRESSIONS:
             kw2 = dict(kw)
@@ -955,7 +1058,7 @@ def classify(pc, r):
     if pc.name == "hd_marker":
         return "hd-prefix-vs-key-marker"
     if pc.name == "reserialize":
-        if r.get("object") == "C" and r.get("kind") == "text-not-parsed" and _re.search(r"\?\?\?|OP_PUSH(DATA)?[_0-9]", r.get("text", "")):
+        if r.get("object") == "C" and r.get("kind") in ("text-not-parsed", "reparsed-object-differs") and r.get("script_text_lossy"):
             return "script-text-not-reparsed"
         return None
     return None
